@@ -434,3 +434,17 @@ Proof.
   - exact Hal.
   - intros i Hi. rewrite (Htop i Hi). reflexivity.
 Qed.
+
+Lemma markov_spectrum :
+  forall (T : mat Qc) (n : nat),
+    (forall i j, i < n -> j < n -> (0 < T i j)%Qc) ->
+    (forall i, i < n -> sumn n (fun j => T i j) = 1%Qc) ->
+    (forall phi : vec Qc, 0 < n -> eigvec n T 1%Qc phi -> forall i, i < n -> phi i = phi 0) /\
+    (forall (l : Qc) (phi : vec Qc), eigvec n T l phi -> (exists i, i < n /\ phi i <> 0%Qc) ->
+       (- (1) <= l)%Qc /\ (l <= 1)%Qc).
+Proof.
+  intros T n Tpos Trow. split.
+  - intros phi. apply markov_eig1_const; assumption.
+  - intros l phi. apply markov_eig_bound; assumption.
+Qed.
+
